@@ -8,7 +8,7 @@ from binaryninja import (
 from binaryninja.enums import Endianness, FlagRole
 from binaryninja.log import log_error
 
-from .pysc62015.instr import decode, encode, OPCODES
+from .pysc62015.instr import decode, encode, OPCODES, PRE
 from .pysc62015.instr.opcodes import InvalidInstruction
 from binja_test_mocks.tokens import asm
 
@@ -81,6 +81,10 @@ class SC62015(Architecture):
     def get_instruction_text(self, data, addr):
         try:
             if decoded := decode(data, addr, OPCODES):
+                if isinstance(decoded, PRE):
+                    # A prefix byte that could not fuse with a following instruction is not an
+                    # instruction (get_instruction_info and the lifter reject it as well).
+                    return None
                 encoded = data[: decoded.length()]
                 recoded = encode(decoded, addr)
                 if encoded != recoded:
